@@ -128,6 +128,11 @@ def make_schema(rng):
         else:
             r = valida.Rule(path=valida.DataPath(*parts), condition=cond, doc=make_doc(rng))
         rules.append(r)
+    if rng.random() < 0.1:
+        # the rule paths as objects of a user's subclass of DataPath that adds nothing: paths all the same
+        sub = type("LabelledPath", (valida.DataPath,), {})
+        for r in rules:
+            r.path.__class__ = sub
     rng.shuffle(rules)
     sch = valida.Schema(rules)
     sch._verif_docspecs = docspecs
